@@ -150,7 +150,7 @@ struct fault
 };
 
 #define MAXF 32
-#define MAXARGS 256
+#define MAXARGS 4096
 #define MAXENV 256
 
 struct plan
